@@ -1,6 +1,7 @@
 (* C03 — a mini module language for which the contracts of update_eq_full are PROVED (ProofsMini.v).
    Modules contain: `from m import x`, annotated module attributes, module-level functions with annotated
-   parameters / return, classes with single inheritance, annotated attributes and methods.  Function and
+   parameters / return, classes with single or MULTIPLE inheritance (a list of bases; members are looked up along the
+   bases left to right, depth first), annotated attributes and methods.  Function and
    method bodies contain annotated assignments `y: t = e`, `return e` and expression statements over
    parameters, literals, `m.x`, from-imported names, attribute access and calls with 0 or 1 argument.
    The checker reads every other definition through [read] only; every read is logged and becomes a
@@ -18,7 +19,7 @@ Definition tkey := (module * option (ident * option ident))%type.   (* m  /  m.f
 (* snapshot entries (what astdiff.snapshot_definition records for these constructs) *)
 Inductive sig :=
 | SigFunc (params : list ty) (ret : ty)
-| SigClass (base : option (module * ident))
+| SigClass (bases : list (module * ident))     (* direct bases, in order (multiple inheritance) *)
 | SigVar (t : ty)
 | SigAlias (m : module) (x : ident).            (* cross reference created by `from m import x` *)
 
@@ -33,7 +34,7 @@ Inductive expr :=
 Inductive stmt := SCheck (t : ty) (e : expr) | SReturn (e : expr) | SExpr (e : expr).
 
 Record fdef := mkF { f_params : list ty; f_ret : ty; f_body : list stmt }.
-Record cdef := mkC { c_base : option (module * ident); c_attrs : list (ident * ty); c_meths : list (ident * fdef) }.
+Record cdef := mkC { c_bases : list (module * ident); c_attrs : list (ident * ty); c_meths : list (ident * fdef) }.
 Record msrc := mkM { m_from : list (ident * (module * ident)); m_vars : list (ident * ty);
                      m_funcs : list (ident * fdef); m_classes : list (ident * cdef) }.
 
@@ -52,7 +53,7 @@ Definition decl (s : msrc) (k : skey) : option sig :=
   match k with
   | (_, x, None) =>
     match aget x (m_classes s) with
-    | Some c => Some (SigClass (c_base c))
+    | Some c => Some (SigClass (c_bases c))
     | None =>
       match aget x (m_funcs s) with
       | Some f => Some (sig_of_f f)
@@ -110,6 +111,18 @@ Section Mini.
     fun e => let (l1, a) := c e in let (l2, b) := f a e in (l1 ++ l2, b).
   Definition read (k : skey) : R (option sig) := fun e => ([sym k], e (sym k)).
 
+  (* the first base (left to right) that yields something / whether some base satisfies a test *)
+  Fixpoint first_some {A B} (f : A -> R (option B)) (l : list A) : R (option B) :=
+    match l with
+    | [] => ret None
+    | a :: r => bind (f a) (fun o => match o with Some b => ret (Some b) | None => first_some f r end)
+    end.
+  Fixpoint any_true {A} (f : A -> R bool) (l : list A) : R bool :=
+    match l with
+    | [] => ret false
+    | a :: r => bind (f a) (fun b => if b then ret true else any_true f r)
+    end.
+
   (* follow `from` aliases to the definition *)
   Fixpoint resolve (fuel : nat) (m : module) (x : ident) : R (option (module * ident * sig)) :=
     bind (read (m, x, None)) (fun o =>
@@ -127,8 +140,11 @@ Section Mini.
       | None =>
         bind (read (m, c, None)) (fun oc =>
           match oc with
-          | Some (SigClass (Some (bm, bc))) =>
-            match fuel with O => ret None | S f => find_member f bm bc a end
+          | Some (SigClass bases) =>
+            match fuel with
+            | O => ret None
+            | S f => first_some (fun b : module * ident => find_member f (fst b) (snd b) a) bases
+            end
           | _ => ret None
           end)
       end).
@@ -137,8 +153,11 @@ Section Mini.
     if Pos.eqb m m' && Pos.eqb c c' then ret true
     else bind (read (m, c, None)) (fun oc =>
       match oc with
-      | Some (SigClass (Some (bm, bc))) =>
-        match fuel with O => ret false | S f => subclass f bm bc m' c' end
+      | Some (SigClass bases) =>
+        match fuel with
+        | O => ret false
+        | S f => any_true (fun b : module * ident => subclass f (fst b) (snd b) m' c') bases
+        end
       | _ => ret false
       end).
 
@@ -246,19 +265,24 @@ Section Mini.
               end) ++ e2)))
     end.
 
+  (* every base must be a class; the methods must be compatible with what EACH base chain provides *)
+  Fixpoint check_bases (ms : list (ident * fdef)) (bs : list (module * ident)) : R (list merr) :=
+    match bs with
+    | [] => ret []
+    | (bm, bc) :: r =>
+      bind (resolve FUEL bm bc) (fun o =>
+      bind (match o with
+            | Some (bm', bc', SigClass _) => check_overrides bm' bc' ms
+            | _ => ret [EBadBase]
+            end) (fun e1 =>
+      bind (check_bases ms r) (fun e2 => ret (e1 ++ e2))))
+    end.
+
   Fixpoint check_classes (cs : list (ident * cdef)) : R (list merr) :=
     match cs with
     | [] => ret []
     | (_, cd) :: r =>
-      bind (match c_base cd with
-            | None => ret []
-            | Some (bm, bc) =>
-              bind (resolve FUEL bm bc) (fun o =>
-                match o with
-                | Some (bm', bc', SigClass _) => check_overrides bm' bc' (c_meths cd)
-                | _ => ret [EBadBase]
-                end)
-            end) (fun e1 =>
+      bind (check_bases (c_meths cd) (c_bases cd)) (fun e1 =>
       bind (check_classes r) (fun e2 => ret (e1 ++ e2)))
     end.
 
